@@ -64,6 +64,10 @@ pub(crate) fn aux_invariant(m: &AuxMap) -> bool {
     n == m.count
 }
 
+pub(crate) fn entry(m: &AuxMap, i: usize) -> u32 {
+    m.entries[i]
+}
+
 pub(crate) fn count(m: &AuxMap) -> u32 {
     m.count
 }
